@@ -1,9 +1,14 @@
 import VaxisModel.Driver.Common
+import VaxisModel.Driver.C03
 import VaxisModel.Model.Width
+import VaxisModel.Model.Startup
 
 /-! Driver for C07 capability detection and width method. Lines:
   caps <19 advertised bits, MSB first = xtversion … LSB = sixel> <initcol> <kitty>  \t <17 detected bits> <7 Can* bits>
   width <unicodeCore> <explicitWidth> <noZWJ> <ghex> <wcwidth> <nozwj> <unicodeStd> \t <RenderedWidth>
+  start dk=<b> ct=<b> q=<n> @ <seq> | <seq> | …   \t <17 detected bits in `capabilities` order> <10 Can* bits> tid=<cps>
+    (the parsed sequences of a whole reply stream handed to a real `vaxis.New`, in arrival order; model-canon = the
+    start-up LTS of `Model/Startup.lean` run under the eager schedule; verdict = `Spec.Startup.specCaps` of the stream)
 The expected detection is the specification "exactly those the replies established": each flag is on
 iff the terminal sent the reply that advertises it. -/
 namespace VaxisModel.Driver.C07caps
@@ -29,8 +34,106 @@ def canOf (d : List Bool) : List Bool :=
 def firstDiff (e g : List Bool) : Option String :=
   (names.zip (e.zip g)).findSome? fun (n, (x, y)) => if x == y then none else some s!"{n}: detected {y}, replies establish {x}"
 
+/-! ### start-up replay -/
+open VaxisModel.Model.Input VaxisModel.Model.InputLoop VaxisModel.Model.Startup in
+/-- The schedule the fake console produces: the input goroutine runs ahead (everything is injected
+at once); `New` moves when the goroutine is blocked or has nothing left: in the probe it receives the
+answer if there is one and otherwise times out, in the loop it receives. -/
+def sched (p : Params) (o : VaxisModel.Spec.Startup.Opts) (final : Bool) : Nat → St → List Seq → St
+  | 0, st, _ => st
+  | fuel + 1, st, todo =>
+    let goro : Option St :=
+      match st.sys.pend with
+      | [] => match todo with
+        | [] => none
+        | s :: _ => match next p o st (.input s) with
+          | some (.ok st') => some st'
+          | _ => none
+      | _ :: _ => match next p o st .step with
+        | some (.ok st') => some st'
+        | _ => match next p o st .clipTimeout with
+          | some (.ok st') => some st'
+          | _ => none
+    -- the answer to the probe is taken as soon as it is there
+    match (if st.phase = .probe then next p o st .probeRecv else none) with
+    | some (.ok st') => sched p o final fuel st' todo
+    | _ =>
+      match goro with
+      | some st' => sched p o final fuel st' (if st.sys.pend.isEmpty then todo.drop 1 else todo)
+      | none =>
+        let newSide : List VaxisModel.Model.Startup.Label :=
+          match st.phase with
+          | .probe => [.probeTimeout]
+          | .loop => if final then [.loopRecv, .loopTimeout] else [.loopRecv]
+          | .done => [.quirks]
+          | .ready => []
+        match newSide.findSome? (fun l => match next p o st l with | some (.ok st') => some st' | _ => none) with
+        | some st' => sched p o final fuel st' todo
+        | none => st
+
+def canBits (c : VaxisModel.Model.Input.Caps) : String :=
+  let k := VaxisModel.Model.Startup.canOf c
+  bitsStr [k.rgb, k.kittyGraphics, k.sixel, k.reportColor, k.reportFg, k.reportBg, k.displayGraphics, k.setAppID, k.unicodeCore, k.explicitWidth]
+
+def firstDiffCaps (e g : List Bool) : Option String :=
+  (VaxisModel.Model.Input.Caps.fieldNames.zip (e.zip g)).findSome? fun (n, (x, y)) =>
+    if x == y then none else some s!"{n}: detected {y}, the replies establish {x}"
+
+/-- Replies up to and including the first DA1 reply. -/
+def uptoDA1 : List VaxisModel.Model.Input.Seq → List VaxisModel.Model.Input.Seq
+  | [] => []
+  | s :: r => if VaxisModel.Spec.Startup.isDA1 s then [s] else s :: uptoDA1 r
+
+/-- The cursor-position report that answers the probe: the first `CSI … R` of the stream. -/
+def probeAnswer : List VaxisModel.Model.Input.Seq → Option Int
+  | [] => none
+  | .csi _ ps 82 :: _ => match ps with
+    | [_, c :: _] => some c
+    | _ => none
+  | _ :: r => probeAnswer r
+
+def stepStart (op impl : String) : String :=
+  match op.splitOn " @ " with
+  | [hd, body] =>
+    let f := fields hd
+    let flag (k : String) : Bool := (VaxisModel.Driver.C03.kv f k) == some "1"
+    let q := ((VaxisModel.Driver.C03.kv f "q").bind String.toNat?).getD 0
+    let toks := body.splitOn " | "
+    let parse (ts : List String) : Option (List VaxisModel.Model.Input.Seq) :=
+      ts.mapM fun t => (VaxisModel.Driver.C03.parseSeq (fields t)).map (·.1)
+    -- `tmo`: the sequences before it arrive while the probe waits, the rest after CursorPosition has returned
+    let before := toks.takeWhile (· != "tmo")
+    let after := (toks.dropWhile (· != "tmo")).drop 1
+    match parse (before.filter (· != "")), parse (after.filter (· != "")) with
+    | some seqs1, some seqs2 =>
+      let seqs := seqs1 ++ seqs2
+      let o : VaxisModel.Spec.Startup.Opts := { disableKitty := flag "dk", colorterm := flag "ct" }
+      let p : VaxisModel.Model.InputLoop.Params :=
+        { qcap := if q == 0 then VaxisModel.Gen.Caps.defaultQueueSize else q, kinds := VaxisModel.Model.InputLoop.Kinds.ofGen, b64 := fun _ => none }
+      let st1 := sched p o false (64 * seqs.length + 20000) (VaxisModel.Model.Startup.St.init o) seqs1
+      let st := sched p o true (64 * seqs.length + 20000) st1 seqs2
+      let caps := st.sys.vs.caps
+      let mc := s!"{bitsStr caps.toList} {canBits caps} tid={VaxisModel.Driver.C03.cpsOut st.termID}"
+      -- the property oracle: what the replies established, independently of the model's run
+      let want := VaxisModel.Spec.Startup.specCaps o (uptoDA1 seqs) (probeAnswer seqs1)
+      let got := match fields impl with | d :: _ => d.toList.map (· == '1') | _ => []
+      -- with a small event queue the probe's answer may be stuck behind a full queue (time-out) and the
+      -- non-blocking OSC 176 notification may be dropped: configuration-dependent, not judged
+      let judged (n : String) : Bool := q == 0 || !(n == "explicitWidth" || n == "osc176")
+      let diffs := (VaxisModel.Model.Input.Caps.fieldNames.zip (want.toList.zip got)).filter fun x => judged x.1 && x.2.1 != x.2.2
+      let canWant := canBits (VaxisModel.Driver.C03.capsOfBits got)
+      let canGot := match fields impl with | _ :: c :: _ => c | _ => ""
+      let v := if st.phase != .ready then "FAIL start-up did not complete in the model schedule"
+        else match diffs with
+        | x :: _ => s!"FAIL capability {x.1}: detected {x.2.2}, the replies establish {x.2.1}"
+        | [] => if canWant == canGot then "ok" else s!"FAIL Can* accessors {canGot} do not reflect the detected capabilities {canWant}"
+      s!"{mc}\t{impl}\t{v}"
+    | _, _ => "bad-op\tbad-op\tbad-op"
+  | _ => "bad-op\tbad-op\tbad-op"
+
 def step (line : String) : String :=
   let (op, impl) := splitTab line
+  if op.startsWith "start " then stepStart op impl else
   match fields op with
   | ["caps", a, _, k] =>
       let e := expected a (k == "1")
